@@ -2,7 +2,7 @@ SPECIFICATION Spec
 CONSTANTS
   Devs <- DevTwo
   Ops <- AllOps
-  ByteStrings <- BytesThorough
+  ByteStrings <- BytesQuick
   NumSeqs <- NumsThorough
   NewObjs <- MCNewObjs
   MaxDepth = 2
